@@ -39,7 +39,7 @@ type VerifC29Env struct {
 	Broken []bool
 	Trace  []VerifC29Event
 
-	Pws    []string // password each key file was created with (the last one given to the KDF before the save)
+	Pws []string // password each key file was created with (the last one given to the KDF before the save)
 
 	kdfCalls []verifC29KDFCall
 	lastPw   string
